@@ -16,7 +16,7 @@ CHECKS = {
     note="Trusted: TLC; exact interning of floats to ranks/ids (fractions.Fraction); EndUnits=32 / UlpFew=4 in spec/Bounds.tla. The model abstracts time to integer ticks and states to step provenance. float16/torch not covered.",
     technique="TLA+ design model checked by TLC + trace validation of the real code against a TLA+ monitor (OdeTrace.tla) + replay of TLC-simulated model behaviours into the real code", design="6/C03"),
  "C04": dict(level="model_checking",
-    text="OdeSystem.tla: FixedStepsEqualDt, FixedDtKeptBetweenSteps, NoOvershootOnCommit for every placement of the span (the deviations absFinalClamp / dirFromSystemSpan / clampAdoptsDt are shown to violate them); traces of all fixed-step families are validated by OdeTrace.tla (C04.* clauses: step is dt or the exact remainder, never longer, clamp only when needed, returned step and next step equal the request, implicit methods shorten only after a failed stage solve); shift and reflection twins are compared by TwinJudge.tla. In the other direction TLC (-simulate, IntegratorSim.tla) produces behaviours of Integrator.tla - calls, the step of every attempt, the controller's verdicts, retries, giving up, injected faults - that are replayed on real integrator objects through the public adaptation_fn hook; attempted steps, the step handed back, the proposed next step, the raised error and the owner of the cached end slope must be the model's.",
+    text="OdeSystem.tla: FixedStepsEqualDt, FixedDtKeptBetweenSteps, NoOvershootOnCommit for every placement of the span (the deviations absFinalClamp / dirFromSystemSpan / clampAdoptsDt / landingStepCarriedOver are shown to violate them; OdeSystem_landing.cfg puts a terminal root strictly inside a clamped last step: the landing call does not change the step in force); traces of all fixed-step families are validated by OdeTrace.tla (C04.* clauses: step is dt or the exact remainder, never longer, clamp only when needed, returned step and next step equal the request, implicit methods shorten only after a failed stage solve); shift and reflection twins are compared by TwinJudge.tla. In the other direction TLC (-simulate, IntegratorSim.tla) produces behaviours of Integrator.tla - calls, the step of every attempt, the controller's verdicts, retries, giving up, injected faults - that are replayed on real integrator objects through the public adaptation_fn hook; attempted steps, the step handed back, the proposed next step, the raised error and the owner of the cached end slope must be the model's.",
     note="Twin runs use dyadic shifts and steps so time arithmetic is exact; state bounds TwinRoundingUnitsPerStep=16 / TwinTolUnits=100 in spec/Bounds.tla.",
     technique="TLC model checking + trace validation (OdeTrace.tla) + twin-run judge (TwinJudge.tla) + replay of TLC-simulated Integrator.tla behaviours into real integrator objects", design="6/C04"),
  "C05": dict(level="model_checking",
@@ -33,7 +33,7 @@ CHECKS = {
     technique="trace validation against a TLA+ monitor (OdeTrace.tla), TLC design model", design="6/C20"),
  "C06": dict(level="model_checking",
     text="OdeSystem.tla: PiecesAreSteps in every reachable state (roll-back, landing on a terminal event, continuation, failure, both directions; deviations keepRolledBackPiece/frontInsert violate it). On the real code OdeTrace.tla tracks the piece list through every add/remove and compares it with the recorded steps; DenseJudge.tla decides, from exact facts sensed on the real solution object, that every grid/mid/quarter-point query is answered by the piece whose interval contains it (the serving piece is observed through a recording proxy), recorded states are reproduced bit for bit (tolerance for Richardson wrappers), scalar and array queries agree, end slopes equal the right-hand side at the piece's end states bit for bit, pieces join, and the mid-step error on rational-solution problems stays within a constant of h^4 M4/384 plus the integrator's error. In the other direction TLC (-simulate, OdeSystemSim.tla) produces behaviours of the design model - API script, callback assignments, crash points - that are replayed on the real code with explicit and splitting fixed-step methods; the projected state (rows, step, status, dense pieces) must equal the model's prediction at every API return (exactly, times being dyadic).",
-    note="Histories keep one direction per system. O(h^4) clause on the two rational-solution problems only. Bounds in spec/Bounds.tla.",
+    note="Histories may turn round (integrate(t) against an earlier call): the lookup of the container model (DenseModel.tla, instantiated by OdeSystem.tla: the transcribed bisections, most recent containing piece once pieces of both orientations are stored) is checked by TLC (QueriesAnsweredByContainingStep, ScalarAndArrayQueriesAgree; deviation bisectAfterTurn violates them) and the model's lookup table is replayed on the real container; constants replaced or edited in place between calls are part of the histories. A grid query is exempt from bit-for-bit reproduction only where passes overlap and the recorded state at that time is not unique. O(h^4) clause on the two rational-solution problems only. Bounds in spec/Bounds.tla.",
     technique="TLC model checking + trace validation (OdeTrace.tla) + fact judge (DenseJudge.tla) + replay of TLC-simulated model behaviours into the real code", design="6/C06"),
  "C07": dict(level="model_checking",
     text="OdeSystem.tla: EventsAreRoots, NoEventTwice (boundary roots shared by two steps / two events; deviation dedupByPosition violates it), TerminalStop. Every scenario of the event lattice (time/state/derivative events, scales 1e-18..1e6, directions, up to 6 simultaneous events, interior/boundary/last-ulp/unrepresentable roots, all families, both directions, dense on/off) is traced: OdeTrace.tla checks each recorded event inside its step, ordered along the direction, unique; EventJudge.tla decides residual, equality with the dense solution, distance to the true root, direction compatibility and uniqueness against the ground truth the scenario defines. In the other direction TLC-simulated behaviours of the design model with events (OdeSystemSim.tla: boundary roots shared by two steps, two functions crossing in one step in either order, terminal after non-terminal, continuation calls) are replayed on the real code; the reported events must be the model's, in its order.",
